@@ -118,15 +118,22 @@ def _mdp_case(case, rng):
             ref = _returns(rw, gamma)
             ok = len(got) == len(ref) and all(abs(g - r) <= 1e-12 * max(1.0, abs(r)) * max(1, len(rw)) for g, r in zip(got, ref))
             case.check(ok, "calc_returns!=backward-recursion", lambda: f"{list(map(float, got))!r} vs {ref!r}")
-    # arbitrary reward sequences
-    seq = [rng.choice([-2.0, 0.0, 1.0, 3.5]) for _ in range(rng.randint(1, 12))]
-    g2 = rng.choice([0.3, 0.9, 1.0])
+    # arbitrary reward sequences, incl. long ones with a small discount (gamma**t underflows to 0.0) and gamma = 0
+    if rng.random() < 0.25:
+        seq = [rng.choice([-2.0, 0.0, 1.0, 3.5]) for _ in range(rng.choice([330, 400, 1100]))]
+        g2 = rng.choice([0.1, 0.5, 0.0, 0.01])
+        if g2 == 0.5 and len(seq) < 1100:
+            g2 = 0.1
+    else:
+        seq = [rng.choice([-2.0, 0.0, 1.0, 3.5]) for _ in range(rng.randint(1, 12))]
+        g2 = rng.choice([0.3, 0.9, 1.0, 0.0])
     got = case.call("calc_returns", Policy.calc_returns, seq, g2)
     case.count("calc_returns_checked")
     if got is not case.FAIL:
         ref = _returns(seq, g2)
-        case.check(len(got) == len(ref) and all(abs(g - r) <= 1e-12 * max(1.0, abs(r)) * len(seq) for g, r in zip(got, ref)),
-                   "calc_returns!=backward-recursion", lambda: f"{list(map(float, got))!r} vs {ref!r} gamma={g2}")
+        case.check(len(got) == len(ref) and all(abs(g - r) <= 1e-12 * max(1.0, abs(r)) * min(len(seq), 50) for g, r in zip(got, ref)),
+                   "calc_returns!=backward-recursion",
+                   lambda: f"gamma={g2} n={len(seq)}: first mismatch {[(i, float(g), r) for i, (g, r) in enumerate(zip(got, ref)) if not abs(g - r) <= 1e-10 * max(1.0, abs(r))][:2]!r}")
 
     # ---- Monte-Carlo evaluation --------------------------------------------------------------------------
     nsim = rng.choice([1, 3, 20])
